@@ -5,7 +5,10 @@
 //! embedded EE certificate is issued with the library's `TbsCert` under the
 //! PoolSigner (certificate validation itself is C01's subject). The oracle is
 //! the conjunction in the property statement, evaluated from the parameters
-//! the harness chose — it knows which single thing it broke.
+//! the harness chose — it knows which single thing it broke. Contents and
+//! signer identifiers in shapes no builder produces are covered by
+//! `run_econtent_shapes` / `run_sid_shapes`; every accepted ROA / ASPA /
+//! manifest is compared with what an independent reader finds in its content.
 
 use crate::c02_cms::{self as cms, Ber, Pfx, RoaFamily, SignedData};
 use crate::core::{hex, Ctx, Rng, Stage, Tier};
@@ -487,6 +490,18 @@ fn build(w: &mut World, c: &Case) -> Built {
     Built { bytes: sd.encode(), attrs_len, sorted }
 }
 
+/// What an accepted object hands to the caller, read through the accessors.
+#[derive(Clone, Debug, PartialEq)]
+enum Reported {
+    Nothing,
+    /// origin AS, (is_v4, first address, last address, maxLength) per prefix
+    Roa(u32, Vec<(bool, u128, u128, Option<u8>)>),
+    /// customer, providers
+    Aspa(u32, Vec<u32>),
+    /// manifest number (20 octets), `len()`, (file, hash) in order
+    Manifest([u8; 20], usize, Vec<(Vec<u8>, Vec<u8>)>),
+}
+
 #[derive(Debug)]
 struct Seen {
     decoded: bool,
@@ -494,6 +509,7 @@ struct Seen {
     err: String,
     crl_calls: u32,
     crl_cert_is_ee: bool,
+    reported: Reported,
 }
 
 /// Runs the library on `bytes` the way a relying party does.
@@ -505,7 +521,7 @@ fn evaluate(ctx: &mut Ctx, w: &World, kind: Kind, bytes: &[u8], strict: bool, ev
     let calls = Cell::new(0u32);
     let is_ee = Cell::new(false);
     let ta = &w.ta;
-    let res: (bool, Result<(), String>) = ctx.no_panic(
+    let res: (bool, Result<Reported, String>) = ctx.no_panic(
         "decode-validate",
         || json!({"kind": kind.name(), "strict": strict, "object": hex(bytes)}),
         || {
@@ -525,11 +541,30 @@ fn evaluate(ctx: &mut Ctx, w: &World, kind: Kind, bytes: &[u8], strict: bool, ev
             match kind {
                 Kind::Roa => match Roa::decode(data, strict) {
                     Err(e) => (false, Err(e.to_string())),
-                    Ok(o) => (true, o.process(ta, strict, cb).map(|_| ()).map_err(|e| e.to_string())),
+                    Ok(o) => (
+                        true,
+                        o.process(ta, strict, cb)
+                            .map(|(_, att)| {
+                                let mut v: Vec<(bool, u128, u128, Option<u8>)> = Vec::new();
+                                for (is_v4, list) in [(true, att.v4_addrs()), (false, att.v6_addrs())] {
+                                    for a in list.iter() {
+                                        let (lo, hi) = a.range();
+                                        v.push((is_v4, lo.to_bits(), hi.to_bits(), a.max_length()));
+                                    }
+                                }
+                                Reported::Roa(att.as_id().into_u32(), v)
+                            })
+                            .map_err(|e| e.to_string()),
+                    ),
                 },
                 Kind::Aspa => match Aspa::decode(data, strict) {
                     Err(e) => (false, Err(e.to_string())),
-                    Ok(o) => (true, o.process(ta, strict, cb).map(|_| ()).map_err(|e| e.to_string())),
+                    Ok(o) => (
+                        true,
+                        o.process(ta, strict, cb)
+                            .map(|(_, att)| Reported::Aspa(att.customer_as().into_u32(), att.provider_as_set().iter().map(|a| a.into_u32()).collect()))
+                            .map_err(|e| e.to_string()),
+                    ),
                 },
                 Kind::Manifest => match Manifest::decode(data, strict) {
                     Err(e) => (false, Err(e.to_string())),
@@ -538,14 +573,25 @@ fn evaluate(ctx: &mut Ctx, w: &World, kind: Kind, bytes: &[u8], strict: bool, ev
                             Eval::At(t) => t,
                             _ => T_IN,
                         };
-                        (true, o.validate_at(ta, strict, time(t)).map(|_| ()).map_err(|e| e.to_string()))
+                        (
+                            true,
+                            o.validate_at(ta, strict, time(t))
+                                .map(|(_, mc)| {
+                                    Reported::Manifest(
+                                        mc.manifest_number().into_array(),
+                                        mc.len(),
+                                        mc.iter().map(|fh| (fh.file().to_vec(), fh.hash().to_vec())).collect(),
+                                    )
+                                })
+                                .map_err(|e| e.to_string()),
+                        )
                     }
                 },
                 Kind::Generic => match SignedObject::decode(data, strict) {
                     Err(e) => (false, Err(e.to_string())),
                     Ok(o) => match eval {
-                        Eval::At(t) => (true, o.validate_at(ta, strict, time(t)).map(|_| ()).map_err(|e| e.to_string())),
-                        Eval::Process { .. } => (true, o.process(ta, strict, cb).map(|_| ()).map_err(|e| e.to_string())),
+                        Eval::At(t) => (true, o.validate_at(ta, strict, time(t)).map(|_| Reported::Nothing).map_err(|e| e.to_string())),
+                        Eval::Process { .. } => (true, o.process(ta, strict, cb).map(|_| Reported::Nothing).map_err(|e| e.to_string())),
                     },
                 },
             }
@@ -555,9 +601,10 @@ fn evaluate(ctx: &mut Ctx, w: &World, kind: Kind, bytes: &[u8], strict: bool, ev
     Some(Seen {
         decoded: res.0,
         accepted: res.1.is_ok(),
-        err: res.1.err().unwrap_or_default(),
+        err: res.1.as_ref().err().cloned().unwrap_or_default(),
         crl_calls: calls.get(),
         crl_cert_is_ee: is_ee.get(),
+        reported: res.1.unwrap_or(Reported::Nothing),
     })
 }
 
@@ -678,6 +725,8 @@ fn run_case(ctx: &mut Ctx, w: &mut World, c: &Case) -> Option<bool> {
             case_json(w, c, &b),
         );
     }
+    // whatever is accepted must report what its signed content says
+    check_reported(ctx, c.kind, &c.content, &seen, || case_json(w, c, &b));
     if !c.assert_outcome {
         ctx.obs(&format!("recorded:{}:{}", c.why_recorded, if seen.accepted { "accepted" } else { "rejected" }), 1);
         ctx.sample("e:recorded", || {
@@ -1372,6 +1421,548 @@ fn run_unsorted(ctx: &mut Ctx, w: &mut World, c: &Case) {
     }
 }
 
+//------------ what the signed content says, read independently --------------
+
+fn bits_to_range(data: &[u8], n: &der::Node) -> Option<(u128, u128, u8)> {
+    let c = n.content(data);
+    if n.tag != der::T_BITSTRING || c.is_empty() || c.len() > 17 || c[0] > 7 || (c.len() == 1 && c[0] != 0) {
+        return None;
+    }
+    let nbits = (c.len() as u32 - 1) * 8 - c[0] as u32;
+    let mut v: u128 = 0;
+    for b in &c[1..] {
+        v = (v << 8) | *b as u128;
+    }
+    if c.len() > 1 {
+        v <<= 128 - 8 * (c.len() as u32 - 1);
+    }
+    let p = Pfx { addr: v, len: nbits as u8 };
+    Some((p.min(), p.max(), nbits as u8))
+}
+
+fn small_uint(data: &[u8], n: &der::Node) -> Option<u64> {
+    let c = n.content(data);
+    if n.tag != der::T_INTEGER || c.is_empty() || c.len() > 9 || c[0] & 0x80 != 0 {
+        return None;
+    }
+    let mut v: u128 = 0;
+    for b in c {
+        v = (v << 8) | *b as u128;
+    }
+    u64::try_from(v).ok()
+}
+
+/// Every prefix written anywhere in a ROA eContent: (asID, [(is_v4, first, last, maxLength)]).
+fn read_roa(content: &[u8]) -> Option<(u32, Vec<(bool, u128, u128, Option<u8>)>)> {
+    let root = der::parse(content)?;
+    let mut kids = root.children.iter().peekable();
+    if kids.peek()?.tag == der::ctx(0) {
+        kids.next();
+    }
+    let asn = u32::try_from(small_uint(content, kids.next()?)?).ok()?;
+    let fams = kids.next()?;
+    let mut out = Vec::new();
+    for f in &fams.children {
+        let afi = f.child(0)?.content(content);
+        let is_v4 = match afi {
+            [0, 1] => true,
+            [0, 2] => false,
+            _ => return None,
+        };
+        for a in &f.child(1)?.children {
+            let (lo, hi, _) = bits_to_range(content, a.child(0)?)?;
+            let ml = match a.child(1) {
+                Some(n) => Some(u8::try_from(small_uint(content, n)?).ok()?),
+                None => None,
+            };
+            out.push((is_v4, lo, hi, ml));
+        }
+    }
+    Some((asn, out))
+}
+
+/// (customer, providers as written) of an ASPA eContent.
+fn read_aspa(content: &[u8]) -> Option<(u32, Vec<u32>)> {
+    let root = der::parse(content)?;
+    let mut kids = root.children.iter().peekable();
+    if kids.peek()?.tag == der::ctx(0) {
+        kids.next();
+    }
+    let customer = u32::try_from(small_uint(content, kids.next()?)?).ok()?;
+    let mut provs = Vec::new();
+    for p in &kids.next()?.children {
+        provs.push(u32::try_from(small_uint(content, p)?).ok()?);
+    }
+    Some((customer, provs))
+}
+
+/// (manifestNumber left-padded to 20 octets, [(file, hash)] as written) of a manifest eContent.
+#[allow(clippy::type_complexity)]
+fn read_manifest(content: &[u8]) -> Option<([u8; 20], Vec<(Vec<u8>, Vec<u8>)>)> {
+    let root = der::parse(content)?;
+    let mut kids = root.children.iter().peekable();
+    if kids.peek()?.tag == der::ctx(0) {
+        kids.next();
+    }
+    let num = kids.next()?;
+    let mut mag = num.content(content);
+    while mag.len() > 1 && mag[0] == 0 {
+        mag = &mag[1..];
+    }
+    if num.tag != der::T_INTEGER || mag.len() > 20 {
+        return None;
+    }
+    let mut number = [0u8; 20];
+    number[20 - mag.len()..].copy_from_slice(mag);
+    let (_tu, _nu, _alg) = (kids.next()?, kids.next()?, kids.next()?);
+    let mut files = Vec::new();
+    for e in &kids.next()?.children {
+        let name = e.child(0)?.content(content).to_vec();
+        let h = e.child(1)?.content(content);
+        if h.is_empty() {
+            return None;
+        }
+        files.push((name, h[1..].to_vec()));
+    }
+    Some((number, files))
+}
+
+fn norm<T: Ord + Clone>(v: &[T]) -> Vec<T> {
+    let mut v = v.to_vec();
+    v.sort();
+    v.dedup();
+    v
+}
+
+/// An accepted object must hand the caller what its signed content says:
+/// nothing that was written may be missing from the accessors and nothing
+/// may appear that was not written.
+fn check_reported(ctx: &mut Ctx, kind: Kind, content: &[u8], seen: &Seen, detail: impl FnOnce() -> Value) {
+    if !seen.accepted {
+        return;
+    }
+    let diff: Option<(Value, Value)> = match (kind, &seen.reported) {
+        (Kind::Roa, Reported::Roa(asn, got)) => match read_roa(content) {
+            None => {
+                ctx.obs("reported_not_compared_content_unreadable", 1);
+                None
+            }
+            Some((wasn, want)) => {
+                ctx.obs("reported_compared_roa", 1);
+                let f = |v: &[(bool, u128, u128, Option<u8>)]| -> Value {
+                    Value::Array(norm(v).iter().map(|(v4, lo, hi, ml)| json!({"v4": v4, "first": format!("{:032x}", lo), "last": format!("{:032x}", hi), "max_length": ml})).collect())
+                };
+                if *asn != wasn || norm(got) != norm(&want) {
+                    Some((json!({"as_id": wasn, "prefixes": f(&want)}), json!({"as_id": asn, "prefixes": f(got)})))
+                } else {
+                    None
+                }
+            }
+        },
+        (Kind::Aspa, Reported::Aspa(customer, provs)) => match read_aspa(content) {
+            None => {
+                ctx.obs("reported_not_compared_content_unreadable", 1);
+                None
+            }
+            Some((wc, wp)) => {
+                ctx.obs("reported_compared_aspa", 1);
+                if *customer != wc || norm(provs) != norm(&wp) {
+                    Some((json!({"customer": wc, "providers": wp}), json!({"customer": customer, "providers": provs})))
+                } else {
+                    None
+                }
+            }
+        },
+        (Kind::Manifest, Reported::Manifest(number, len, files)) => match read_manifest(content) {
+            None => {
+                ctx.obs("reported_not_compared_content_unreadable", 1);
+                None
+            }
+            Some((wn, wf)) => {
+                ctx.obs("reported_compared_manifest", 1);
+                let f = |v: &[(Vec<u8>, Vec<u8>)]| -> Value { Value::Array(v.iter().map(|(n, h)| json!([String::from_utf8_lossy(n), hex(h)])).collect()) };
+                if *number != wn || *files != wf || *len != wf.len() {
+                    Some((json!({"number": hex(&wn), "files": f(&wf)}), json!({"number": hex(number), "len": len, "files": f(files)})))
+                } else {
+                    None
+                }
+            }
+        },
+        _ => None,
+    };
+    ctx.eval();
+    if let Some((written, reported)) = diff {
+        let mut d = detail();
+        d["written_in_signed_content"] = written;
+        d["reported_by_accessors"] = reported;
+        ctx.violation(
+            &format!("C02:accepted-content-misreported:{}", kind.name()),
+            &format!("an accepted {} reports something else than what its signed content says (entries dropped, added or changed)", kind.name()),
+            d,
+        );
+    }
+}
+
+//------------ eContent in shapes the library's builders cannot produce ------
+
+/// A prefix of the family inside `[lo, hi]` (value space) containing `a`.
+fn prefix_inside(rng: &mut Rng, is_v4: bool, lo: u128, hi: u128, a: u128) -> Pfx {
+    let fam_bits: u8 = if is_v4 { 32 } else { 128 };
+    let mut ok: Vec<u8> = Vec::new();
+    for len in (0..=fam_bits).rev() {
+        let p = Pfx { addr: a, len };
+        let p = Pfx { addr: p.min(), len };
+        let pmax = if is_v4 { p.min() | ((1u128 << (128 - len as u32)).wrapping_sub(1)) } else { p.max() };
+        let pmax = if len == 0 { u128::MAX } else { pmax };
+        if p.min() >= lo && pmax <= hi {
+            ok.push(len);
+        } else {
+            break;
+        }
+    }
+    let len = if ok.is_empty() { fam_bits } else { *rng.pick(&ok) };
+    let p = Pfx { addr: a, len };
+    Pfx { addr: p.min(), len }
+}
+
+/// (case, shape label, written the way the profile prescribes)
+fn roa_shape(w: &World, rng: &mut Rng, key: usize) -> (Case, String, bool) {
+    let ee = if rng.chance(1, 3) { ee_roa_trim(key, w.now) } else { ee_roa_std(key, w.now) };
+    let (v4, v6, _) = w.validated(&ee).unwrap();
+    let nf = *rng.pick(&[0usize, 1, 2, 2, 2, 2, 3, 3]);
+    let mut fams: Vec<RoaFamily> = Vec::new();
+    let mut label: Vec<String> = Vec::new();
+    let mut canonical = nf > 0;
+    for _ in 0..nf {
+        let is_v4 = rng.bool();
+        let set = if is_v4 { &v4 } else { &v6 };
+        let unit: u128 = if is_v4 { 1u128 << 96 } else { 1 };
+        let fam_bits: u8 = if is_v4 { 32 } else { 128 };
+        let k = *rng.pick(&[0usize, 1, 1, 1, 2, 3]);
+        let mut addrs: Vec<(Pfx, Option<u8>)> = Vec::new();
+        let mut outside = false;
+        for _ in 0..k {
+            let (lo, hi) = *rng.pick(&set.iv);
+            let span = (hi - lo) / unit;
+            let a = lo + (if span == 0 { 0 } else { rng.next_u128() % (span + 1) }) * unit;
+            let p = if rng.chance(1, 4) {
+                outside = true;
+                match rng.below(3) {
+                    0 => Pfx { addr: hi.wrapping_add(1) & !(unit - 1), len: fam_bits },
+                    1 => Pfx { addr: lo.wrapping_sub(unit), len: fam_bits },
+                    _ => {
+                        // the smallest prefix around the whole block, one bit shorter
+                        let inner = prefix_inside(rng, is_v4, lo, hi, lo);
+                        let len = inner.len.saturating_sub(1 + rng.below(3) as u8);
+                        let q = Pfx { addr: lo, len };
+                        Pfx { addr: q.min(), len }
+                    }
+                }
+            } else {
+                prefix_inside(rng, is_v4, lo, hi, a)
+            };
+            let ml = if rng.bool() { Some(rng.range(p.len as u64, fam_bits as u64) as u8) } else { None };
+            addrs.push((p, ml));
+        }
+        if k > 0 && rng.chance(1, 10) {
+            let d = addrs[0];
+            addrs.push(d);
+        }
+        if k == 0 {
+            canonical = false;
+        }
+        label.push(format!("{}{}{}", if is_v4 { "4" } else { "6" }, if k == 0 { "-empty" } else { "" }, if outside { "-outside" } else { "" }));
+        fams.push(if is_v4 { RoaFamily::v4(addrs) } else { RoaFamily::v6(addrs) });
+    }
+    let n4 = fams.iter().filter(|f| f.afi == [0, 1]).count();
+    let n6 = fams.len() - n4;
+    if n4 > 1 || n6 > 1 || (fams.len() == 2 && fams[0].afi == [0, 2]) {
+        canonical = false;
+    }
+    let mut c = roa_case(w, ee, "econtent-shape", fams, rng.next_u32());
+    c.strict = rng.bool();
+    let trim = c.ee.trim;
+    (c, format!("families=[{}]{}", label.join(","), if trim { " trim-ee" } else { "" }), canonical)
+}
+
+fn aspa_shape(w: &World, rng: &mut Rng, key: usize) -> (Case, String, bool) {
+    let ee = ee_aspa_std(key, w.now);
+    let (_, _, asn) = w.validated(&ee).unwrap();
+    let (lo, hi) = *rng.pick(&asn.iv);
+    let inside = !rng.chance(1, 4);
+    let customer = if inside { lo + rng.next_u64() as u128 % (hi - lo + 1) } else if rng.bool() { hi + 1 } else { lo.wrapping_sub(1) } as u32;
+    let mut provs: Vec<u32> = (0..1 + rng.usize_below(5)).map(|_| rng.next_u32()).filter(|p| *p != customer).collect();
+    provs.push(customer.wrapping_add(9));
+    provs.sort();
+    provs.dedup();
+    let (how, canonical) = match rng.below(8) {
+        0 => {
+            provs.reverse();
+            ("providers-descending", provs.len() < 2)
+        }
+        1 => {
+            let d = provs[0];
+            provs.insert(0, d);
+            ("provider-twice-adjacent", false)
+        }
+        2 => {
+            let d = provs[0];
+            provs.push(d);
+            ("provider-twice-apart", false)
+        }
+        3 => {
+            provs.push(customer);
+            ("customer-among-providers-last", false)
+        }
+        4 => {
+            provs.insert(0, customer);
+            ("customer-among-providers-first", false)
+        }
+        5 => {
+            provs.clear();
+            ("no-providers", false)
+        }
+        _ => ("providers-ascending", true),
+    };
+    let mut c = aspa_case(w, ee, "econtent-shape", customer, &provs);
+    c.strict = rng.bool();
+    (c, format!("{} customer-{}", how, if inside { "inside" } else { "outside" }), canonical)
+}
+
+fn manifest_shape(rng: &mut Rng, key: usize) -> (Case, String, bool) {
+    let n = rng.usize_below(5);
+    let exts = ["roa", "cer", "crl", "asa", "gbr"];
+    let mut entries: Vec<cms::MftEntry> = (0..n)
+        .map(|i| {
+            let name = format!("{}{:x}_{}.{}", ["a", "Zz", "obj-"][i % 3], rng.next_u32(), i, exts[rng.usize_below(exts.len())]);
+            cms::MftEntry::new(name.as_bytes(), &rng.bytes(32))
+        })
+        .collect();
+    let mut number: Vec<u8> = rng.range(1, u32::MAX as u64).to_be_bytes().to_vec();
+    let mut tu = T_IN - 3600;
+    let nu = T_IN + 86_400;
+    let (how, canonical) = match rng.below(9) {
+        0 if n > 0 => {
+            let d = entries[0].clone();
+            entries.push(d);
+            ("entry-twice", false)
+        }
+        1 if n > 0 => {
+            let mut d = entries[0].clone();
+            d.hash = rng.bytes(32);
+            entries.insert(0, d);
+            ("same-name-two-hashes", false)
+        }
+        2 if n > 1 => {
+            entries.reverse();
+            ("entries-reordered", true)
+        }
+        3 => {
+            number = vec![0];
+            ("number-zero", true)
+        }
+        4 => {
+            number = rng.bytes(20);
+            number[0] &= 0x7F;
+            number[0] |= 0x40;
+            ("number-20-octets", true)
+        }
+        5 => {
+            tu = nu;
+            ("this-update-equals-next-update", true)
+        }
+        _ => ("plain", true),
+    };
+    let content = cms::manifest_econtent_raw(&number, &cms::gentime(tu), &cms::gentime(nu), &der::oid(der::OID_SHA256), &entries);
+    let mut c = Case::new(Kind::Manifest, ee_inherit(key, None), der::oid(der::OID_CT_MANIFEST), content, Eval::At(T_IN));
+    c.rel = "econtent-shape".into();
+    c.strict = rng.bool();
+    (c, format!("{} entries={}", how, if entries.is_empty() { "0" } else if entries.len() == 1 { "1" } else { "many" }), canonical)
+}
+
+/// ROA / ASPA / manifest contents written by the independent encoder in
+/// shapes the library's own builders never produce (an address family more
+/// than once and in any order, empty lists, repeated or unsorted members,
+/// extreme manifest numbers). Such an object may be rejected. If it is
+/// accepted, everything in the signed content counts: every prefix written in
+/// any family entry must lie inside the EE certificate's validated resources,
+/// and the accessors must report exactly what was written.
+fn run_econtent_shapes(ctx: &mut Ctx, w: &mut World, budget: u64) {
+    let mut rng = ctx.rng("econtent-shapes");
+    for i in 0..budget {
+        let key = 1 + (i as usize % 2);
+        let (c, label, canonical) = match rng.below(8) {
+            0..=4 => roa_shape(w, &mut rng, key),
+            5 | 6 => aspa_shape(w, &mut rng, key),
+            _ => manifest_shape(&mut rng, key),
+        };
+        let b = build(w, &c);
+        let Some(seen) = evaluate(ctx, w, c.kind, &b.bytes, c.strict, c.eval, &c.ee) else { continue };
+        ctx.eval();
+        let mode = if c.strict { "strict" } else { "relaxed" };
+        ctx.sig(&format!("econtent-shape {} {} {} covered={}", c.kind.name(), label, mode, c.cov_ok));
+        ctx.obs(&format!("econtent_shape:{}:{}", c.kind.name(), if seen.accepted { "accepted" } else { "rejected" }), 1);
+        if seen.accepted && !canonical {
+            ctx.obs(&format!("econtent_shape_unusual_accepted:{}", c.kind.name()), 1);
+        }
+        ctx.sample(&format!("f:econtent-shape:{}:{}", c.kind.name(), if seen.accepted { "accepted" } else { "rejected" }), || {
+            json!({"kind": c.kind.name(), "shape": label, "strict": c.strict, "all_covered": c.cov_ok, "content": hex(&c.content),
+                   "observed": if seen.accepted { "accepted".to_string() } else { format!("rejected: {}", seen.err) }})
+        });
+        let detail = |w: &World| {
+            let mut d = case_json(w, &c, &b);
+            d["shape"] = json!(label);
+            d["content"] = json!(hex(&c.content));
+            d
+        };
+        if seen.accepted && !c.cov_ok {
+            ctx.violation(
+                &format!("C02:invalid-accepted:uncovered:econtent-shape:{}", c.kind.name()),
+                &format!("a {} whose signed content names a prefix / customer AS outside the EE certificate's validated resources was accepted in {} mode", c.kind.name(), mode),
+                detail(w),
+            );
+        } else if !seen.accepted && canonical && c.cov_ok {
+            let mut d = detail(w);
+            d["observed_error"] = json!(seen.err);
+            ctx.violation(
+                &format!("C02:valid-rejected:econtent-shape:{}", c.kind.name()),
+                &format!("a {} meeting every condition of the statement was rejected in {} mode: {}", c.kind.name(), mode, seen.err),
+                d,
+            );
+        }
+        check_reported(ctx, c.kind, &c.content, &seen, || detail(w));
+    }
+}
+
+//------------ signer identifier shapes ---------------------------------------
+
+/// All the ways the harness writes a signer identifier of `content` octets:
+/// (name, TLV replacing the `[0]` sid).
+fn sid_encodings(content: &[u8], rng: &mut Rng) -> Vec<(String, Vec<u8>)> {
+    let n = content.len();
+    let cons = |sizes: &[usize]| -> Vec<u8> {
+        let mut body = Vec::new();
+        let mut pos = 0;
+        for s in sizes {
+            body.extend_from_slice(&der::octets(&content[pos..pos + s]));
+            pos += s;
+        }
+        body
+    };
+    let mut out: Vec<(String, Vec<u8>)> = vec![("prim".into(), der::tlv(der::ctx_prim(0), content))];
+    out.push((format!("cons:1x{}", n), der::tlv(der::ctx(0), &cons(&[n]))));
+    if n >= 2 {
+        out.push((format!("cons:{}+{}", n / 2, n - n / 2), der::tlv(der::ctx(0), &cons(&[n / 2, n - n / 2]))));
+        let a = 1 + rng.usize_below(n - 1);
+        out.push(("cons:random-split".into(), der::tlv(der::ctx(0), &cons(&[a, n - a]))));
+        // a constructed piece inside the constructed string
+        let inner = der::tlv(der::T_OCTETSTRING | 0x20, &cons(&[1, n / 2 - 1]));
+        let mut body = inner;
+        body.extend_from_slice(&der::octets(&content[n / 2..]));
+        out.push(("cons:nested".into(), der::tlv(der::ctx(0), &body)));
+    }
+    if n > 20 {
+        out.push((format!("cons:20+{}", n - 20), der::tlv(der::ctx(0), &cons(&[20, n - 20]))));
+        out.push((format!("cons:{}+20", n - 20), der::tlv(der::ctx(0), &cons(&[n - 20, 20]))));
+    }
+    out.push(("cons:empty-piece-first".into(), der::tlv(der::ctx(0), &cons(&[0, n]))));
+    out.push(("cons:indefinite".into(), der::tlv_indefinite(der::ctx_prim(0), &cons(&[n / 2, n - n / 2]))));
+    out
+}
+
+/// The signer identifier must EQUAL the EE certificate's subject key
+/// identifier. Valid objects of every kind get their sid (not covered by any
+/// signature) rewritten: every length other than 20 with the right octets in
+/// front or at the end, primitive and in every constructed (BER)
+/// segmentation, decoded strict and relaxed — all must be rejected. The right
+/// 20 octets in a constructed encoding satisfy the statement; what the
+/// library does with them is recorded.
+fn run_sid_shapes(ctx: &mut Ctx, w: &mut World) {
+    let mut rng = ctx.rng("sid-shapes");
+    let mut idx = 0u64;
+    for (ki, kind) in KINDS.iter().enumerate() {
+        let key = 1 + ki % 2;
+        let c = valid_of_kind(w, &mut rng, *kind, key, ki);
+        let b = build(w, &c);
+        let ski = cms::ski_of_spki(&w.pool.key(key).spki);
+        let Some(root) = der::parse(&b.bytes) else { continue };
+        // ContentInfo -> [0] -> SignedData -> signerInfos (last) -> SignerInfo -> sid
+        let Some(sd) = root.path(&[1, 0]) else { continue };
+        let si_idx = sd.children.len() - 1;
+        let path = [1usize, 0, si_idx, 0, 1];
+        match root.path(&path) {
+            Some(n) if n.tag == der::ctx_prim(0) && n.content(&b.bytes) == &ski[..] => {}
+            _ => {
+                ctx.obs("sid_shape_base_layout_unexpected", 1);
+                continue;
+            }
+        }
+        // the untouched object must be accepted, otherwise nothing can be said
+        match evaluate(ctx, w, c.kind, &b.bytes, false, c.eval, &c.ee) {
+            Some(s) if s.accepted => {}
+            _ => {
+                ctx.obs("sid_shape_base_not_accepted", 1);
+                continue;
+            }
+        }
+        let mut variants: Vec<(String, Vec<u8>, bool)> = Vec::new(); // (label, sid octets, equals the SKI)
+        for len in [0usize, 1, 10, 19, 21, 24, 32, 40] {
+            for anchor in ["prefix", "suffix"] {
+                if len == 0 && anchor == "suffix" {
+                    continue;
+                }
+                let pad = rng.bytes(20);
+                let content: Vec<u8> = match (len < 20, anchor) {
+                    (true, "prefix") => ski[..len].to_vec(),
+                    (true, _) => ski[20 - len..].to_vec(),
+                    (false, "prefix") => [&ski[..], &pad[..len - 20]].concat(),
+                    (false, _) => [&pad[..len - 20], &ski[..]].concat(),
+                };
+                variants.push((format!("len{}-ski-as-{}", len, anchor), content, false));
+            }
+        }
+        variants.push(("len40-ski-twice".into(), [&ski[..], &ski[..]].concat(), false));
+        variants.push(("len20-halves-swapped".into(), [&ski[10..], &ski[..10]].concat(), false));
+        let mut flipped = ski.clone();
+        flipped[rng.usize_below(20)] ^= 1 << rng.below(8);
+        variants.push(("len20-one-bit-off".into(), flipped, false));
+        variants.push(("len20-right-value".into(), ski.clone(), true));
+        for (label, content, equal) in variants {
+            for (enc, tlv) in sid_encodings(&content, &mut rng) {
+                if equal && enc == "prim" {
+                    continue;
+                }
+                for strict in [true, false] {
+                    idx += 1;
+                    if !ctx.mine(idx) {
+                        continue;
+                    }
+                    let bytes = der::replace_node(&b.bytes, &root, &path, &tlv);
+                    let Some(seen) = evaluate(ctx, w, c.kind, &bytes, strict, c.eval, &c.ee) else { continue };
+                    ctx.eval();
+                    let mode = if strict { "strict" } else { "relaxed" };
+                    let enc_class = if enc == "prim" { "prim" } else { "cons" };
+                    ctx.sig(&format!("sid-shape {} {} {} {}", kind.name(), label, enc, mode));
+                    ctx.obs(&format!("sid_shape:{}:{}:{}", if equal { "right-value" } else { "wrong-value" }, enc_class, if seen.accepted { "accepted" } else { "rejected" }), 1);
+                    ctx.sample(&format!("g:sid-shape:{}", if equal { "right-value" } else { "wrong-value" }), || {
+                        json!({"kind": kind.name(), "sid": label, "encoding": enc, "strict": strict, "sid_tlv": hex(&tlv),
+                               "observed": if seen.accepted { "accepted".to_string() } else { format!("rejected: {}", seen.err) }})
+                    });
+                    if equal {
+                        ctx.obs(&format!("recorded:sid-right-value-constructed-{}:{}", mode, if seen.accepted { "accepted" } else { "rejected" }), 1);
+                    } else if seen.accepted {
+                        ctx.violation(
+                            &format!("C02:invalid-accepted:sid-{}-{}", label, enc_class),
+                            &format!("a {} whose signer identifier ({}, {}) is not equal to the EE certificate's subject key identifier was accepted in {} mode", kind.name(), label, enc, mode),
+                            json!({"kind": kind.name(), "sid_octets": hex(&content), "ee_ski": hex(&ski), "encoding": enc, "sid_tlv": hex(&tlv), "strict": strict, "object": hex(&bytes), "wall_clock_now": w.now}),
+                        );
+                    }
+                }
+            }
+        }
+    }
+}
+
 //------------ bit flips ------------------------------------------------------
 
 fn flip_objects(w: &World, rng: &mut Rng) -> Vec<Case> {
@@ -1527,6 +2118,10 @@ pub fn run(ctx: &mut Ctx) {
         }
     }
     ctx.obs("rounds_started", round + 1);
+    // contents and signer identifiers in shapes only an independent encoder produces
+    let shapes = ctx.stage_budget((16_000, 200_000), if thorough { 4_000 } else { 800 }, 0, 40);
+    run_econtent_shapes(ctx, &mut w, shapes);
+    run_sid_shapes(ctx, &mut w);
     // bit flips
     let exhaustive = ctx.tier == Tier::Thorough && ctx.stage == Stage::Native;
     let flips = ctx.stage_budget((40_000, 0), if thorough { 16_000 } else { 3_000 }, 0, 1_600);
